@@ -117,7 +117,11 @@ where
     /// Polls to complete any pending receive or verify operation.
     fn poll_complete(&mut self, cx: &mut Context<'_>) -> Poll<io::Result<()>> {
         if let ReceiverState::Receiving(ref mut fut) = self.state {
-            let (data, bin_receiver) = ready!(fut.poll(cx))?;
+            let res = ready!(fut.poll(cx));
+            if res.is_err() {
+                self.state = ReceiverState::Idle;
+            }
+            let (data, bin_receiver) = res?;
             // Only keep bin_receiver if we got data; on EOF (None) we won't need it
             if data.is_some() {
                 *self.bin_receiver.lock().unwrap() = Some(bin_receiver);
@@ -127,8 +131,9 @@ where
         }
 
         if let ReceiverState::VerifyingSize(ref mut fut) = self.state {
-            let expected_size = ready!(fut.poll(cx))?;
+            let res = ready!(fut.poll(cx));
             self.state = ReceiverState::Idle;
+            let expected_size = res?;
 
             // Store the received size
             *self.size_info.lock().unwrap() = Some(SizeInfo::Determined(expected_size));
